@@ -31,6 +31,13 @@ def c11(work, tier, seed):
                 steps = fs.session(token)[:4] + [{"k": "data", "cls": "valid", "n": 10}]
                 scripts.append({"id": "d%05d" % len(scripts), "origin": "opened/%s/stalled" % cause, "cfg": fs.base_cfg(token), "transport": tr,
                                 "tun": dict(fs.H_A, user="user1" if token else "nuser1"), "steps": steps, "point": "opened", "cause": cause, "inflight": "stalled"})
+    # legacy: the client has sent a second RDG_OUT_DATA request under the same connection identifier before the tunnel ends
+    for point in ("hs", "opened"):
+        for cause in ("close-channel", "protocol-error", "fin:in", "rst:in"):
+            for token in ((True, False) if tier == "thorough" else (len(scripts) % 2 == 0,)):
+                steps = fs.session(token)[:4] + [{"k": "data", "cls": "valid", "n": 10}]
+                scripts.append({"id": "d%05d" % len(scripts), "origin": "%s/%s/reout" % (point, cause), "cfg": fs.base_cfg(token), "transport": "legacy",
+                                "tun": dict(fs.H_A, user="user1" if token else "nuser1"), "steps": steps, "point": point, "cause": cause, "inflight": "reout"})
     # legacy: the IN request was accepted but the client has not sent its first bytes yet
     for cause in ("fin:in", "rst:in", "fin:out", "rst:out"):
         for token in ((True, False) if tier == "thorough" else (len(scripts) % 2 == 0,)):
